@@ -278,8 +278,18 @@ End HeapProofs.
 
 (* ===================== the regenerated summary: proofs over a finite domain *)
 
+(* The checks are proved through "the list of offending entries is empty", so
+   that when a regenerated summary breaks one, coqc's error message shows the
+   offending entries (function, file:line, instruction, root). *)
+Lemma no_offender : forall (A : Type) (f : A -> bool) (l : list A),
+  filter (fun x => negb (f x)) l = [] -> forallb f l = true.
+Proof.
+  intros A f l. induction l as [|x l IH]; simpl; intro H; [reflexivity|].
+  destruct (f x); simpl in *; [apply IH; exact H|discriminate].
+Qed.
+
 Lemma C11_frame : forallb (fun e => negb (writes_shared e)) read_effects = true.
-Proof. vm_compute. reflexivity. Qed.
+Proof. apply no_offender. vm_compute. reflexivity. Qed.
 
 Lemma C11_facts : facts_ok facts = true.
 Proof. vm_compute. reflexivity. Qed.
@@ -288,13 +298,13 @@ Lemma summary_entries : entries_ok reachable_fns = true.
 Proof. vm_compute. reflexivity. Qed.
 
 Lemma C20_build_writes : forallb build_write_ok build_effects = true.
-Proof. vm_compute. reflexivity. Qed.
+Proof. apply no_offender. vm_compute. reflexivity. Qed.
 
 Lemma C20_load_writes : forallb load_write_ok load_effects = true.
-Proof. vm_compute. reflexivity. Qed.
+Proof. apply no_offender. vm_compute. reflexivity. Qed.
 
 Lemma C20_flows : forallb flow_ok flows = true.
-Proof. vm_compute. reflexivity. Qed.
+Proof. apply no_offender. vm_compute. reflexivity. Qed.
 
 Lemma C20_marshal_fresh : marshal_result_fresh results = true.
 Proof. vm_compute. reflexivity. Qed.
